@@ -98,22 +98,33 @@ impl FromStr for MatchResult {
 
     fn from_str(s: &str) -> Result<Self, Self::Err> {
         fn find_next_field(s: &str, start_pos: usize) -> Result<(&str, usize), PriceLevelError> {
-            let mut pos = start_pos;
+            // `find` returns a byte offset that is always on a character boundary
+            match s[start_pos..].find(';') {
+                Some(idx) => Ok((&s[start_pos..start_pos + idx], start_pos + idx + 1)),
+                None => Ok((&s[start_pos..], s.len())),
+            }
+        }
 
-            while pos < s.len() {
-                if s[pos..].starts_with(';') {
-                    let value = &s[start_pos..pos];
-                    return Ok((value, pos + 1));
+        // Finds the `]` matching an already opened `[`, scanning bytes: brackets are ASCII and
+        // never occur inside a multi-byte character, so the index returned is a character boundary.
+        fn find_closing_bracket(s: &str, start: usize) -> Option<usize> {
+            let bytes = s.as_bytes();
+            let mut bracket_depth = 1;
+            let mut i = start;
+            while i < bytes.len() {
+                match bytes[i] {
+                    b']' => {
+                        bracket_depth -= 1;
+                        if bracket_depth == 0 {
+                            return Some(i);
+                        }
+                    }
+                    b'[' => bracket_depth += 1,
+                    _ => {}
                 }
-                pos += 1;
+                i += 1;
             }
-
-            if pos == s.len() {
-                let value = &s[start_pos..pos];
-                return Ok((value, pos));
-            }
-
-            Err(PriceLevelError::InvalidFormat)
+            None
         }
         if !s.starts_with("MatchResult:") {
             return Err(PriceLevelError::InvalidFormat);
@@ -156,27 +167,10 @@ impl FromStr for MatchResult {
                         return Err(PriceLevelError::InvalidFormat);
                     }
 
-                    let mut bracket_depth = 1;
-                    let mut i = pos + "Transactions:[".len();
-
-                    while i < s.len() && bracket_depth > 0 {
-                        if s[i..].starts_with(']') {
-                            bracket_depth -= 1;
-                            if bracket_depth == 0 {
-                                break;
-                            }
-                            i += 1;
-                        } else if s[i..].starts_with('[') {
-                            bracket_depth += 1;
-                            i += 1;
-                        } else {
-                            i += 1;
-                        }
-                    }
-
-                    if bracket_depth > 0 {
-                        return Err(PriceLevelError::InvalidFormat);
-                    }
+                    let i = match find_closing_bracket(s, pos + "Transactions:[".len()) {
+                        Some(i) => i,
+                        None => return Err(PriceLevelError::InvalidFormat),
+                    };
 
                     transactions_str = Some(&s[pos..=i]);
                     pos = i + 1;
@@ -191,27 +185,10 @@ impl FromStr for MatchResult {
                         return Err(PriceLevelError::InvalidFormat);
                     }
 
-                    let mut bracket_depth = 1;
-                    let mut i = pos + 1;
-
-                    while i < s.len() && bracket_depth > 0 {
-                        if s[i..].starts_with(']') {
-                            bracket_depth -= 1;
-                            if bracket_depth == 0 {
-                                break;
-                            }
-                            i += 1;
-                        } else if s[i..].starts_with('[') {
-                            bracket_depth += 1;
-                            i += 1;
-                        } else {
-                            i += 1;
-                        }
-                    }
-
-                    if bracket_depth > 0 {
-                        return Err(PriceLevelError::InvalidFormat);
-                    }
+                    let i = match find_closing_bracket(s, pos + 1) {
+                        Some(i) => i,
+                        None => return Err(PriceLevelError::InvalidFormat),
+                    };
 
                     filled_order_ids_str = Some(&s[pos..=i]);
 
